@@ -8,6 +8,10 @@ spec->code: every edge TLC generates (all class trees of the tier x all historie
           the exception class, the values of ALL live objects, ==/hash/`in`/[] relations
           are compared with what TLC printed.  The namespace-class acceptance table
           (ClassDefs / InstanceRules) is replayed the same way.
+data:     specs/RenderData.tla + MC_RenderData.tla: the complete state graph of a RenderData
+          set (update with known / unknown / mixed field lists in both orders, attribute
+          get/set/del, as_dict, get_fields, set[cls]); every edge replayed on a real set,
+          reading every field before and after each call (a rejected call changes nothing).
 code->spec: seeded random + hypothesis histories on trees of up to 8 classes are recorded
           from the real code and validated by TLC against specs/Trace_RenderArgs.tla.
 """
@@ -583,6 +587,153 @@ def validate(rep: Report, traces: list[dict], name: str):
 
 
 # ---------------------------------------------------------------------------------------
+# render data: mutable namespaces (specs/RenderData.tla, MC_RenderData.tla)
+# ---------------------------------------------------------------------------------------
+DATA_API = {"Update": "DataNamespace.update", "Set": "DataNamespace.__setattr__",
+            "Get": "DataNamespace.__getattr__", "Del": "DataNamespace.__delattr__",
+            "AsDict": "DataNamespace.as_dict", "GetFields": "DataNamespace.get_fields",
+            "GetItem": "RenderData.__getitem__"}
+DATA_ACTIONS = ["RdGetItem", "RdGetItemNoNamespace", "RdGetItemNotAncestor", "RdUpdate",
+                "RdUpdateRejected", "RdSet", "RdSetUnknown", "RdGet", "RdGetUnknown",
+                "RdGetUninitialized", "RdDel", "RdAsDict", "RdAsDictUninitialized", "RdGetFields"]
+DATA_CFG = """SPECIFICATION Spec
+CONSTANTS
+  Sel = "{sel}"
+  DumpEdges = TRUE
+VIEW View
+ACTION_CONSTRAINT Dump
+INVARIANT TypeOK
+PROPERTY RejectedHasNoEffect
+PROPERTY ReadsHaveNoEffect
+PROPERTY WritesAreExact
+PROPERTY NeverUninitialized
+CHECK_DEADLOCK FALSE
+"""
+
+
+def run_data_mc(sel: str):
+    """TLC on MC_RenderData (complete state graph, -coverage, edge dump)."""
+    d = OUT / f"dcfg-{uuid.uuid4().hex[:8]}"
+    d.mkdir(parents=True, exist_ok=True)
+    f = d / "MC_RenderData.cfg"
+    f.write_text(DATA_CFG.format(sel=sel))
+    try:
+        return tlc.run("MC_RenderData", str(f), workers=1, timeout=600, coverage=True,
+                       jvm=["-Xmx3g", "-Xss64m", "-XX:ParallelGCThreads=2"], deadlock=False)
+    finally:
+        shutil.rmtree(d, ignore_errors=True)
+
+
+def replay_data_walk(case: dict, tree, walk: list) -> tuple[int, str, str] | None:
+    """Run one walk (list of DEDGE arrays) on a fresh real RenderData; every field of every
+    namespace is read before and after each call.  Returns (index, clause, detail) of the
+    first disagreement."""
+    cls = case["cls"]
+    rd = tree.new(cls)
+    witness = tree.new(cls)
+    for k in tree.owners(cls):
+        for f in range(1, kit.nf(k) + 1):
+            setattr(witness[tree.cls[k]], f"f{f}", 1)
+    wit0 = tree.read_all(witness, cls)
+    for i, e in enumerate(walk):
+        _cs, frm, op, exc, ret, to = e
+        before = tree.read_all(rd, cls)
+        if before != frm:
+            return i, "state", f"before {op}: fields are {before}, the history requires {frm}"
+        got, val = tree.execute(rd, op)
+        after = tree.read_all(rd, cls)
+        call = f"{op[0]}{op[1:]}"
+        if exc and not got:
+            return i, "accepts", f"{call} did not raise; documented: {exc}; fields {before} -> {after}"
+        if not exc and got:
+            return i, "rejects", f"{call} raised {got}; it is valid; fields {before} -> {after}"
+        if exc and exc not in val:
+            return i, "exception-class", f"{call} raised {got}; documented: {exc}"
+        if exc and after != before:
+            return i, "rejected-op-had-effect", (
+                f"{call} raised {got} but changed the namespace(s): {before} -> {after}; a "
+                "rejected operation must leave every field unchanged")
+        if after != to:
+            return i, "value", f"after {call} the fields are {after}; required {to} (were {before})"
+        if not exc and val != ret:
+            return i, "return", f"{call} returned {val}; required {ret}"
+        if tree.read_all(witness, cls) != wit0:
+            return i, "other-object-changed", f"{call} changed another live RenderData: {tree.read_all(witness, cls)}"
+    return None
+
+
+def replay_data(rep: Report, res, label: str):
+    from ..graph import Graph
+
+    rep.add_tlc(res)
+    if res.violated:
+        rep.violation(f"design:RenderData:{res.violated}",
+                      f"MC_RenderData violates {res.violated}\n" + res.error_text[:1500],
+                      {"kind": "design"})
+        return
+    vac = [a for a in DATA_ACTIONS if res.coverage.get(a, (0, 0))[1] == 0]
+    if vac:
+        raise tlc.MachineryError(f"vacuous data actions: {vac}")
+    cases = {c["cs"]: c for c in tagged_lines(res.stdout, "DCASE")}
+    by_case: dict[int, list] = defaultdict(list)
+    for e in tagged_lines(res.stdout, "DEDGE"):
+        by_case[e[0]].append(e)
+    if not by_case:
+        raise tlc.MachineryError("no DEDGE lines")
+    n_edges = n_walks = 0
+    canary_done = False
+    for cs, edges in sorted(by_case.items()):
+        case = cases[cs]
+        tree = kit.DataTree(case["par"], case["has"])
+        g = Graph([{"from": e[1], "op": e[2:5], "to": e[5], "raw": e} for e in edges],
+                  inits=[case["init"]])
+        walks = g.walks(max_len=60)
+        if g.unreachable_edges:
+            raise tlc.MachineryError(f"{g.unreachable_edges} data edges unreachable in case {case}")
+        if not canary_done:
+            # the alarm must ring: a rejected update whose required successor is altered
+            for w in walks:
+                j = next((i for i, x in enumerate(w) if x["raw"][3] and x["raw"][2][0] == "Update"), None)
+                if j is not None:
+                    bad = [json.loads(json.dumps(x["raw"])) for x in w[: j + 1]]
+                    k = bad[j][2][1]
+                    bad[j][5][k - 1][0] = 1 - bad[j][5][k - 1][0] if bad[j][5][k - 1][0] != kit.U else 0
+                    if replay_data_walk(case, tree, bad) is None:
+                        raise tlc.MachineryError("tampered data edge was not rejected")
+                    canary_done = True
+                    break
+        for w in walks:
+            raw = [x["raw"] for x in w]
+            n_walks += 1
+            n_edges += len(raw)
+            rep.evaluations += len(raw)
+            for x in raw:
+                rep.distinct.add(("data", cs, x[2][0], x[2][1], tuple(f for f, _ in x[2][4]), x[3]))
+            bad = replay_data_walk(case, tree, raw)
+            if bad and len(rep.violations) < MAX_VIOLATIONS:
+                i, clause, detail = bad
+                op = raw[i][2]
+                kwf = [f for f, _ in op[4]]
+                shape = ""
+                if op[0] == "Update" and raw[i][3]:
+                    unk = [f > kit.nf(op[1]) for f in kwf]
+                    shape = (":mixed-unknown-first" if unk[0] and not all(unk) else
+                             ":mixed-unknown-later" if not all(unk) else ":unknown-only")
+                rep.violation(
+                    f"{DATA_API[op[0]]}:{clause}{shape}",
+                    f"data namespaces: tree par={case['par']} owners={case['has']}, RenderData(D{case['cls']}); "
+                    f"fields f1..; 2 = uninitialized\nhistory: {[x[2] for x in raw[: i + 1]]}\n{detail}",
+                    {"kind": "data", "case": case, "walk": raw[: i + 1]})
+    if not canary_done:
+        raise tlc.MachineryError("data canary did not run")
+    rep.traces_validated += n_walks
+    rep.extra["data"] = {"label": label, "cases": len(by_case), "states": res.distinct,
+                         "edges": n_edges, "walks": n_walks,
+                         "action_coverage": {a: res.coverage[a][1] for a in DATA_ACTIONS},
+                         "canary": "a tampered rejected-update edge is rejected"}
+
+
+# ---------------------------------------------------------------------------------------
 # namespace-class acceptance table
 # ---------------------------------------------------------------------------------------
 def check_rules(rep: Report, stdout: str):
@@ -797,6 +948,14 @@ def main(rep: Report, replay: dict | None) -> None:
             res = run_mc(rep, sel, maxops, 24 if sel == "thorough" else NQUICK, True, False, 900,
                          sc["label"], nsub=4 if maxops > 3 else 1)
             replay_edges(rep, res, sc["label"], only_tree=sc["tree"], only_first=sc["first"])
+        elif sc["kind"] == "data":
+            case = sc["case"]
+            bad = replay_data_walk(case, kit.DataTree(case["par"], case["has"]), sc["walk"])
+            rep.evaluations += len(sc["walk"])
+            if bad:
+                i, clause, detail = bad
+                op = sc["walk"][i][2]
+                rep.violation(f"{DATA_API[op[0]]}:{clause}", detail, sc)
         elif sc["kind"] in ("classrule", "instrule"):
             res = run_mc(rep, "quick", 1, 1, False, False, 300, "rules")
             check_rules(rep, res[0].stdout)
@@ -804,6 +963,10 @@ def main(rep: Report, replay: dict | None) -> None:
 
     # ---- model checking + spec -> code ---------------------------------------------
     t0 = time.time()
+    from concurrent.futures import ThreadPoolExecutor
+
+    data_pool = ThreadPoolExecutor(max_workers=1)
+    data_future = data_pool.submit(run_data_mc, rep.tier)
     if quick:
         res = run_mc(rep, "quick", 3, NQUICK, True, "sample", 400, "quick/3ops")
         t0 = _lap(rep, "tlc quick/3ops", t0)
@@ -833,6 +996,11 @@ def main(rep: Report, replay: dict | None) -> None:
             "histories of 3 operations on every tree shape with <= 4 classes (depth <= 3, "
             "branching <= 2) x every non-empty owner set and 5-class shapes x 3 owner sets; "
             "histories of 4 operations on the 9 quick trees")
+
+    # ---- render data (mutable namespaces): complete state graph, replayed ---------------
+    replay_data(rep, data_future.result(), f"data/{rep.tier}")
+    data_pool.shutdown()
+    t0 = _lap(rep, "data replay", t0)
 
     # ---- code -> spec ----------------------------------------------------------------
     traces = gen_traces(rep, 240 if quick else 3000, 7 if quick else 10)
